@@ -3,7 +3,7 @@
    gives the byte-level clauses of C07, C08 and C11.  Statements only; proofs in
    Proofs/LexerProofs.v. *)
 From XSG.Model Require Import Strings Necessity Element Parser Dom Lexer.
-From XSG.Proofs Require Import ElementProofs ParserFaults ParserTotal SkelProofs LexerProofs LexerC11 LexerEmpty LexerMisc.
+From XSG.Proofs Require Import ElementProofs ParserFaults ParserTotal SkelProofs LexerProofs LexerC11 LexerEmpty LexerMisc LexerCData.
 From Coq Require Import String.
 
 (* the default-configured reader never delivers an end tag that closes nothing: for EVERY byte
@@ -139,6 +139,44 @@ Example C11_bytes_example_doctype :
   misc_piece (s "<!DOCTYPE html PUBLIC ""-//W3C//DTD XHTML 1.0//EN"" ""x.dtd"">").
 Proof. exact example_doctype_piece. Qed.
 
+(* character data written as text or as a CDATA section.  Event level, any stream: *)
+Theorem C11_events_text_cdata_anywhere : forall a r b,
+  into_struct_ev (a ++ ECData r :: b) = into_struct_ev (a ++ EText r :: b).
+Proof. exact text_cdata_anywhere. Qed.
+Theorem C11_events_text_cdata_anywhere_extend : forall root a r b,
+  extend_struct_ev root (a ++ ECData r :: b) = extend_struct_ev root (a ++ EText r :: b).
+Proof. exact text_cdata_anywhere_extend. Qed.
+(* bytes: a non-empty text t without `<` `>` up to the next markup, against `<![CDATA[` t `]]>` *)
+Theorem C11_bytes_text : forall t p op,
+  no_lt_gt t = true -> t <> [] ->
+  exists p', lex_run (st (MText []) p op) (t ++ [B_lt]) = (st MLt p' op, [EText (dec_unit t)]).
+Proof. exact run_text. Qed.
+Theorem C11_bytes_cdata : forall t p op,
+  no_lt_gt t = true ->
+  exists p', lex_run (st (MText []) p op) (cdata_open ++ t ++ cdata_close ++ [B_lt])
+             = (st MLt p' op, [ECData (dec_unit t)]).
+Proof. exact run_cdata. Qed.
+Theorem C11_bytes_text_vs_cdata : forall a t b,
+  no_lt_gt t = true -> t <> [] ->
+  md (fst (lex_run lex_init a)) = MText [] ->
+  no_reader_error (lex_from lex_init (a ++ (t ++ [B_lt]) ++ b)) = true ->
+  into_struct_ev (lex_from lex_init (a ++ (cdata_open ++ t ++ cdata_close ++ [B_lt]) ++ b))
+  = into_struct_ev (lex_from lex_init (a ++ (t ++ [B_lt]) ++ b)).
+Proof. exact bytes_text_vs_cdata. Qed.
+Example C11_bytes_example_text_cdata :
+  md (fst (lex_run lex_init (s "<a x='1'><b>"))) = MText []
+  /\ no_reader_error (lex_from lex_init (s "<a x='1'><b>" ++ (s "some text" ++ [B_lt]) ++ s "/b></a>")) = true
+  /\ exists e, into_struct_ev (lex_from lex_init (s "<a x='1'><b><![CDATA[some text]]></b></a>")) = Ok e
+               /\ into_struct_ev (lex_from lex_init (s "<a x='1'><b>some text</b></a>")) = Ok e.
+Proof. exact example_text_cdata. Qed.
+
+(* the end-to-end statements above are written with `lex_from lex_init`: that is `lex` on every
+   input that does not begin with a byte-order mark, e.g. whose first byte is not 0xEF *)
+Theorem LEX_no_bom : forall bs, fst (strip_bom bs) = bs -> lex bs = lex_from lex_init bs.
+Proof. exact lex_no_bom. Qed.
+Theorem LEX_no_bom_first_byte : forall b r, b <> 239 -> fst (strip_bom (b :: r)) = b :: r.
+Proof. exact strip_bom_markup. Qed.
+
 (* C08: a syntax error is returned with the reader's error kind and byte position, and nothing
    before it in the stream is a fault - for every byte string *)
 Theorem C08_bytes_position : forall bs p id,
@@ -248,3 +286,11 @@ Print Assumptions C11_bytes_piece_doctype.
 Print Assumptions C11_bytes_example_pieces.
 Print Assumptions C11_bytes_example_doctype.
 Print Assumptions C08_bytes_position.
+Print Assumptions C11_events_text_cdata_anywhere.
+Print Assumptions C11_events_text_cdata_anywhere_extend.
+Print Assumptions C11_bytes_text.
+Print Assumptions C11_bytes_cdata.
+Print Assumptions C11_bytes_text_vs_cdata.
+Print Assumptions C11_bytes_example_text_cdata.
+Print Assumptions LEX_no_bom.
+Print Assumptions LEX_no_bom_first_byte.
